@@ -204,6 +204,9 @@ func c02File(w *world, q query.Q, r *kit.Repo, d *kit.Doc, f *zoekt.FileMatch, n
 		if iv == wholeName && len(n.Ranges) == 0 && len(n.NameRanges) == 1 {
 			continue // the documented "file-name match reports the file name" case (no atom produced a range)
 		}
+		if w.ev.RegexpMatchAt(q, d, iv, true) {
+			continue
+		}
 		out = append(out, problem{"name range not matched by a positive atom", fmt.Sprintf("range %v %q", iv, d.Name[iv.S:iv.E])})
 	}
 	for _, iv := range n.Ranges {
@@ -211,6 +214,12 @@ func c02File(w *world, q query.Q, r *kit.Repo, d *kit.Doc, f *zoekt.FileMatch, n
 			continue
 		}
 		if mode == "line" && isNewlinePiece(pos.Content, iv, text) {
+			continue
+		}
+		if w.ev.RegexpMatchAt(q, d, iv, false) {
+			// another occurrence than the engine's successive matches, still a match of a
+			// regexp atom that starts exactly here (literal-like regexps are evaluated as
+			// substrings; overlap resolution between atoms may keep a later occurrence)
 			continue
 		}
 		out = append(out, problem{"content range not matched by a positive atom", fmt.Sprintf("range %v %q", iv, text[iv.S:iv.E])})
